@@ -44,14 +44,25 @@ func runC09(r *Run) {
 	}
 	if fn, ok := P.FnOK("(" + vk + ".Keeper).Clawback"); ok {
 		isT := isCallMatching(func(ci CallInfo) bool { return ci.Name == "transferClawback" })
-		requireGuard(r, "R1", fnID(fn)+"#only-funder", fn, funderEq(func(s *Slice) bool { return s.HasField("MsgClawback", "FunderAddress") }), nil, isT,
+		requireGuard(r, "R1", fnID(fn)+"#only-funder", fn, funderEq(func(s *Slice) bool { return onlyMsgField(s, "MsgClawback", "FunderAddress") }), nil, isT,
 			"clawback only where recorded funder == msg.FunderAddress", "the clawback transfer is reachable although the recorded funder differs from the message's funder (anyone could claw back)")
 		w := Precedes(fn, isCallMatching(func(ci CallInfo) bool { return ci.Name == "transferClawback" && errHandled(ci.Instr) }), isSuccessExit, nil)
 		r.Check(w == nil, "R1", fnID(fn)+"#transfers", P.Pos(fnPos(fn)), "success only after transferClawback", "Clawback can succeed without transferring", P.witness(w)...)
 		// dest: blocked check and default-to-funder
+		var destArg ssa.Value
+		eachCall(fn, func(ci CallInfo) {
+			if ci.Name == "transferClawback" {
+				destArg = stripValue(argN(ci.Instr, 2))
+			}
+		})
 		requireGuard(r, "R2", fnID(fn)+"#dest-not-blocked", fn, func(cond ssa.Value) (bool, bool) {
-			_, ok := callNamed(cond, "BlockedAddr")
-			return false, ok
+			c, ok := callNamed(cond, "BlockedAddr")
+			if !ok || destArg == nil {
+				return false, false
+			}
+			// the address tested is the very value handed to transferClawback as destination
+			a := callArgs(c)
+			return false, len(a) > 0 && stripValue(a[len(a)-1]) == destArg
 		}, nil, isT, "transfer only to a non-blocked destination", "clawed-back coins can be sent to a blocked (module) address")
 		okDest := false
 		eachCall(fn, func(ci CallInfo) {
@@ -73,7 +84,7 @@ func runC09(r *Run) {
 			sn, f, ok := fieldOfAddr(st.Addr)
 			return ok && sn == "ClawbackVestingAccount" && f == "FunderAddress"
 		}
-		requireGuard(r, "R1", fnID(fn)+"#only-funder", fn, funderEq(func(s *Slice) bool { return s.HasField("MsgUpdateVestingFunder", "FunderAddress") }), nil, isStore,
+		requireGuard(r, "R1", fnID(fn)+"#only-funder", fn, funderEq(func(s *Slice) bool { return onlyMsgField(s, "MsgUpdateVestingFunder", "FunderAddress") }), nil, isStore,
 			"funder updated only where recorded funder == msg.FunderAddress", "the funder address can be replaced by someone who is not the recorded funder")
 		w := PathQuery{Fn: fn, Block: isCallMatching(func(ci CallInfo) bool { return ci.Name == "SetAccount" }), Target: isSuccessExit}.Search()
 		r.Check(w == nil, "R1", fnID(fn)+"#stored", P.Pos(fnPos(fn)), "updated account is stored", "UpdateVestingFunder can succeed without storing the account", P.witness(w)...)
@@ -87,7 +98,7 @@ func runC09(r *Run) {
 			continue
 		}
 		isAdd := isCallMatching(func(ci CallInfo) bool { return ci.Name == "addGrant" })
-		requireGuard(r, "R1", fnID(fn)+"#merge-only-by-funder", fn, funderEq(func(s *Slice) bool { return s.HasField("MsgCreateClawbackVestingAccount", "FromAddress") }), nil, isAdd,
+		requireGuard(r, "R1", fnID(fn)+"#merge-only-by-funder", fn, funderEq(func(s *Slice) bool { return onlyMsgField(s, "MsgCreateClawbackVestingAccount", "FromAddress") }), nil, isAdd,
 			"a grant is merged only where recorded funder == msg.FromAddress", "a grant can be merged into an existing vesting account by someone who is not its funder (schedules and clawback rights of the account change)")
 	}
 	// addGrant replaces the whole schedule consistently: start, end and both period lists come from the two DisjunctPeriods calls
@@ -358,4 +369,23 @@ func checkBoundary(r *Run, rule string, fn *ssa.Function, timeParam string) {
 			"a period ending exactly at "+timeParam+" counts as ended", "normalised comparison is `periodEnd "+op.String()+" "+timeParam+"`: a period that ends exactly at "+timeParam+" is treated as not yet ended here, while the schedule functions define a period as ended when end <= t (boundary events are dropped or double-counted between siblings)")
 	})
 	r.Floor(rule, "period-end comparisons in "+fn.Name(), n, 1)
+}
+
+// onlyMsgField: the slice contains field f of message struct sn and no other field of that struct —
+// the value is the message's f and is not mixed with (or replaced by) another field of the message.
+func onlyMsgField(s *Slice, sn, f string) bool {
+	has, other := false, false
+	s.Any(func(v ssa.Value) bool {
+		for _, get := range []func(ssa.Value) (string, string, bool){fieldOfAddr, fieldOfValue} {
+			if n, ff, ok := get(v); ok && n == sn {
+				if ff == f {
+					has = true
+				} else {
+					other = true
+				}
+			}
+		}
+		return false
+	})
+	return has && !other
 }
